@@ -18,6 +18,7 @@ PRE_STATES = [
     ['delete-entity(N1)', 'location(1)'],
     ['create-metric', 'delete(NEW)'],
     ['update-descr(CH)', 'metric(N1,1)'],
+    ['create-metric', 'update-descr(NEW)', 'delete(NEW)'],      # a removed handle whose last versions were above 0
 ]
 
 
@@ -281,7 +282,7 @@ def run(ctx):
         jobs += [[f'stash({h})', w, w], [f'stash({h})', w, 'update-descr(CH)', w]]
     # aborted transactions (pre-commit handler raises) between a delete and a re-create, and in general
     creators = [n for n in names if n.startswith(('create', 'patient-new', 'patient-entity-new', 'parent+child', 'delete'))]
-    for pre in (PRE_STATES[3:4] if ctx.quick else PRE_STATES):
+    for pre in ([PRE_STATES[3], PRE_STATES[5]] if ctx.quick else PRE_STATES):
         jobs += [pre + [f'abort[{a}]', e] for a in creators for e in creators]
     jobs += [[f'abort[{a}]', a] for a in names]
     if not ctx.quick:
